@@ -297,6 +297,20 @@ static double pickValue(const Field &f, bool lowBound, const std::string &rel) {
   double step = f.integer ? 1.0 : std::max(span * 0.05, std::fabs(b) * 0.5 + 1e-9);
   if (!f.integer && std::fabs(b) < 1e-3 && b > 0) step = b * 0.5;  // tiny positive bounds: halve / double
   if (rel == "at") return b;
+  // further probes outside the range: by a hair, by a lot, and exactly zero (NAN = not applicable for this field / bound)
+  if (rel == "near") {
+    if (f.integer) return NAN;
+    double h = std::max(std::fabs(b) * 1e-3, 1e-7);
+    return lowBound ? b - h : b + h;
+  }
+  if (rel == "far") {
+    double h = f.integer ? 1000.0 : 1000.0 * (std::fabs(b) + 1.0);
+    return lowBound ? b - h : b + h;
+  }
+  if (rel == "zero") {
+    bool zeroOutside = lowBound ? (0.0 < f.lo || (0.0 == f.lo && !f.loIncl)) : (0.0 > f.hi || (0.0 == f.hi && !f.hiIncl));
+    return zeroOutside ? 0.0 : NAN;
+  }
   bool outward = rel == "outside";
   if (lowBound) return outward ? b - step : b + (f.integer ? 1.0 : std::min(step, span * 0.3));
   return outward ? b + step : b - (f.integer ? 1.0 : std::min(step, span * 0.3));
@@ -374,11 +388,11 @@ static void invalidRun(int run, long long attempt, const Circuit &base) {
     return;
   }
   a -= 59 + 48;
-  if (a < kNbFields * 6) {
-    const Field &f = kFields[a / 6];
-    bool low = (a % 6) < 3;
-    static const char *rels[] = {"outside", "at", "inside"};
-    std::string rel = rels[a % 3];
+  if (a < kNbFields * 12) {
+    const Field &f = kFields[a / 12];
+    bool low = (a % 12) < 6;
+    static const char *rels[] = {"outside", "at", "inside", "near", "far", "zero"};
+    std::string rel = rels[a % 6];
     double b = low ? f.lo : f.hi;
     Value e = vt::ev("ParamCheck");
     e.set("run", run).set("field", f.name).set("bound", low ? "lo" : "hi").set("rel", rel);
@@ -392,6 +406,11 @@ static void invalidRun(int run, long long attempt, const Circuit &base) {
     ColoquinteParameters p(3, 1);
     p.global.maxNbSteps = 2;
     double v = pickValue(f, low, rel);
+    if (std::isnan(v)) {
+      e.set("outcome", "skip").set("rejectedCall", false).set("sameAfter", true);
+      vt::emit(e);
+      return;
+    }
     setField(p, f.name, v);
     std::string outcome = "ok";
     try {
@@ -448,7 +467,7 @@ static void invalidRun(int run, long long attempt, const Circuit &base) {
     if (outcome == "error") allSetters(run, c, "A");
     return;
   }
-  a -= kNbFields * 6;
+  a -= kNbFields * 12;
   static const char *vecSetters[] = {"setCellX", "setCellY", "setCellIsFixed", "setCellIsObstruction", "setCellOrientation", "setCellRowPolarity",
                                      "setCellWidth", "setCellHeight", "setSolution", "setNetWeights", "expandCellsByFactor"};
   const int nvs = 11;
@@ -674,7 +693,7 @@ static void apiRun(int run, const Circuit &base, vg::Rng &r) {
   }
 }
 
-static long long nbInvalidAttempts() { return 59 + 48 + kNbFields * 6 + 11 * 3 + 12; }
+static long long nbInvalidAttempts() { return 59 + 48 + kNbFields * 12 + 11 * 3 + 12; }
 
 int main(int argc, char **argv) {
   for (int i = 1; i < argc; ++i) {
